@@ -313,6 +313,16 @@ package resolver
 //@   modifies nothing
 //@   ensures result == (currentKey != nil && revokedKey != nil && currentKey.Algorithm == revokedKey.Algorithm && currentKey.Protocol == revokedKey.Protocol && currentKey.PublicKey == revokedKey.PublicKey && currentKey.Flags == revokedKey.Flags ^ 128)
 //@
+//@ # the tag an anchor is tracked under is recovered from its revoked form by clearing the REVOKE bit on a COPY and
+//@ # recomputing the checksum - not by subtracting 128 from the revoked tag, which the checksum's end-around carry
+//@ # makes wrong whenever adding 128 carries out of the low 16 bits; the caller's key is left as it was
+//@ func unrevokedKeyTag
+//@   arith bv
+//@   abstract
+//@   nosafety all pre
+//@   assert at call middleware/resolver/dnssec.KeyTag#1: arg0 != revokedKey && arg0.Flags == old(revokedKey.Flags) & 65407 && arg0.Algorithm == old(revokedKey.Algorithm) && arg0.Protocol == old(revokedKey.Protocol) && arg0.PublicKey == old(revokedKey.PublicKey) && revokedKey.Flags == old(revokedKey.Flags)
+//@   assert at return: result == lastret("middleware/resolver/dnssec.KeyTag")
+//@
 //@ # authentication of a fetched DNSKEY set: full authentication only by pass 1 (currently trusted, non-revoked keys);
 //@ # pass 2 (revoked forms of trusted keys, matched by material) yields revocation-only authentication; nothing else
 //@ # authenticates; a work-limit error is terminal
@@ -320,6 +330,8 @@ package resolver
 //@   abstract
 //@   nosafety all pre
 //@   assert at append#2: lastret("middleware/resolver.sameKeyExceptRevoke") && src[0] == dnskey
+//@   assert at call middleware/resolver.unrevokedKeyTag#1: arg0 == dnskey
+//@   assert at call middleware/resolver.sameKeyExceptRevoke#1: arg1 == dnskey
 //@   assert at call middleware/resolver/dnssec.VerifyRRSIGWithWork#1: arg1 == currentKeys && arg3 == work
 //@   assert at call middleware/resolver/dnssec.VerifyRRSIGWithWork#2: arg1 == revokedBootstrap && arg3 == work && !lastret("middleware/resolver/dnssec.VerifyRRSIGWithWork#1")
 //@   assert at return#3: result0 && !result1 && result2 == nil && lastret("middleware/resolver/dnssec.VerifyRRSIGWithWork#1")
@@ -336,6 +348,8 @@ package resolver
 //@   nosafety all pre
 //@   assert at mapupdate#1: value ==> lastret("middleware/resolver.revocationIsSelfSignedWithWork") && lastret("middleware/resolver.revocationIsSelfSignedWithWork", 1) == nil && lastret("middleware/resolver.sameKeyExceptRevoke")
 //@   assert at call middleware/resolver.revocationIsSelfSignedWithWork#1: arg0 == rrs && arg1 == ta.DNSKey && arg2 == work
+//@   assert at call middleware/resolver.unrevokedKeyTag#1: arg0 == ta.DNSKey
+//@   assert at call middleware/resolver.sameKeyExceptRevoke#1: arg0 == oldTA.DNSKey && arg1 == ta.DNSKey
 //@
 //@ # state files are replaced atomically: temp file written, synced and closed BEFORE the rename; the directory is synced after it
 //@ func atomicGobWrite
@@ -368,6 +382,9 @@ package resolver
 //@   assert at call middleware/resolver.writeToTAFile#1: lastret("middleware/resolver.readTombstones", 1) == nil
 //@   assert at call middleware/resolver.verifyFetchedKeysWithWork#1: arg0 == candidate && arg1 == resp.Answer
 //@   assert at store resolver.TrustAnchor.State#5: value == StateRevoked && lastret("middleware/resolver.sameKeyExceptRevoke") && revocationSelfSigned[tag]
+//@   # the anchor a revocation is matched against is the one tracked under the revoked key's UN-revoked tag
+//@   assert at store resolver.TrustAnchor.State#5: oldTag == lastret("middleware/resolver.unrevokedKeyTag")
+//@   assert at call middleware/resolver.unrevokedKeyTag#1: arg0 == ta.DNSKey
 //@   # tombstone precedence is enforced on EVERY refresh, whichever way the working set was obtained: a tracked,
 //@   # non-marker key whose material is tombstoned is dropped also when the state came from the state file
 //@   assert at mapdelete#1: ta.State != StateRevoked && ta.State != StateRemoved
